@@ -47,6 +47,7 @@ fn main() {
         "replay-scope" => c_scope::replay(rest),
         "replay-parse" => c_parse::replay(rest),
         "repeat-parse" => c_parse::repeat_parse(rest),
+        "accepts" => c_parse::accepts(rest),
         "gen-programs" => c_gen::main(rest),
         "parse-hosts" => c_gen::parse_hosts(rest),
         "record-pipeline" => c_pipe::record(rest),
